@@ -9,9 +9,9 @@ advances only over ticks in which the system was Running, and Run Time only whil
 Time and Scope Time, which drive time thresholds, advance only while Running: not while Paused and not
 while Holding."
 
-A tick of the model is `tickPost (tickClock inc (tickPre s t))`: read phase and interpreter phase, then
+A tick of the model is `tickPost (tickClock inc (tickPre cfg s t))`: read phase and interpreter phase, then
 `update_calculated_tags` (the only place where clocks are incremented), then the command phase and the
-write phase.  `u = (tickPre s t).core` is the engine state at the clock update.
+write phase.  `u = (tickPre cfg s t).core` is the engine state at the clock update.
 
 The statements are about model M1 with the repair `Cfg.clocks`
 (/verif/fixes/C07-clocks-follow-system-state.diff) and hold for *every* state `s` and every tick input
@@ -53,6 +53,14 @@ theorem clock_other (cfg : Cfg) (c : Core) (inc : Int) :
   unfold Core.clock; split <;> simp
 
 /-! ## Read phase and interpreter phase -/
+
+/-- `set_error_state` touches no clock, no run id, not `started`; System State becomes Paused -/
+theorem setError_frame (cfg : Cfg) (c : Core) :
+    (c.setError cfg).pt = c.pt ∧ (c.setError cfg).rt = c.rt ∧ (c.setError cfg).runId = c.runId ∧
+    (c.setError cfg).nextRunId = c.nextRunId ∧ (c.setError cfg).started = c.started ∧
+    (c.setError cfg).sys = .paused ∧ (c.setError cfg).blocks = c.blocks ∧
+    (c.setError cfg).scopeT = c.scopeT ∧ (c.setError cfg).scopeS = c.scopeS := by
+  unfold Core.setError; split <;> simp
 
 theorem interpItems_keep (items : List Item) (s : State) :
     let c := (items.foldl interpItem s).core
@@ -97,8 +105,8 @@ theorem interpItems_timers (items : List Item) (s : State) (h : ∀ it ∈ items
 
 /-- Up to the clock update a tick changes no clock, no run id, not `started`; System State stays or
     becomes Paused (an error in the read or interpreter phase). -/
-theorem tickPre_keeps (s : State) (t : TickIn) :
-    let u := (tickPre s t).core
+theorem tickPre_keeps (cfg : Cfg) (s : State) (t : TickIn) :
+    let u := (tickPre cfg s t).core
     u.pt = s.core.pt ∧ u.rt = s.core.rt ∧ u.runId = s.core.runId ∧ u.nextRunId = s.core.nextRunId ∧
       u.started = s.core.started ∧ (u.sys = s.core.sys ∨ u.sys = .paused) := by
   unfold tickPre
@@ -109,7 +117,7 @@ theorem tickPre_keeps (s : State) (t : TickIn) :
         (s1.core.sys = s.core.sys ∨ s1.core.sys = .paused)) →
       let u := (if s1.core.gate = true then
           (let s2 := t.items.foldl interpItem s1
-           let s3 := if t.interpFail = true then { s2 with core := s2.core.setError } else s2
+           let s3 := if t.interpFail = true then { s2 with core := s2.core.setError cfg } else s2
            { s3 with lastInterp := true })
         else { s1 with lastInterp := false,
                        gateViolation := s1.gateViolation || !t.items.isEmpty || t.interpFail }).core
@@ -122,15 +130,18 @@ theorem tickPre_keeps (s : State) (t : TickIn) :
       simp only [] at h
       obtain ⟨b1, b2, b3, b4, b5, b6⟩ := h
       split
-      · exact ⟨b1.trans a1, b2.trans a2, b3.trans a3, b4.trans a4, b5.trans a5, Or.inr rfl⟩
+      · have f := setError_frame cfg (t.items.foldl interpItem s1).core
+        exact ⟨(f.1.trans b1).trans a1, (f.2.1.trans b2).trans a2, (f.2.2.1.trans b3).trans a3,
+          (f.2.2.2.1.trans b4).trans a4, (f.2.2.2.2.1.trans b5).trans a5, Or.inr f.2.2.2.2.2.1⟩
       · exact ⟨b1.trans a1, b2.trans a2, b3.trans a3, b4.trans a4, b5.trans a5, by rw [b6]; exact a6⟩
     · exact ⟨a1, a2, a3, a4, a5, a6⟩
   split
-  · exact key _ ⟨rfl, rfl, rfl, rfl, rfl, Or.inr rfl⟩
+  · have f := setError_frame cfg s.core
+    exact key _ ⟨f.1, f.2.1, f.2.2.1, f.2.2.2.1, f.2.2.2.2.1, Or.inr f.2.2.2.2.2.1⟩
   · exact key _ ⟨rfl, rfl, rfl, rfl, rfl, Or.inl rfl⟩
 
-theorem tickPre_timers (s : State) (t : TickIn) (h : ∀ it ∈ t.items, noEv it = true) :
-    let u := (tickPre s t).core
+theorem tickPre_timers (cfg : Cfg) (s : State) (t : TickIn) (h : ∀ it ∈ t.items, noEv it = true) :
+    let u := (tickPre cfg s t).core
     u.blocks = s.core.blocks ∧ u.scopeT = s.core.scopeT ∧ u.scopeS = s.core.scopeS := by
   unfold tickPre
   simp only []
@@ -138,7 +149,7 @@ theorem tickPre_timers (s : State) (t : TickIn) (h : ∀ it ∈ t.items, noEv it
       (s1.core.blocks = s.core.blocks ∧ s1.core.scopeT = s.core.scopeT ∧ s1.core.scopeS = s.core.scopeS) →
       let u := (if s1.core.gate = true then
           (let s2 := t.items.foldl interpItem s1
-           let s3 := if t.interpFail = true then { s2 with core := s2.core.setError } else s2
+           let s3 := if t.interpFail = true then { s2 with core := s2.core.setError cfg } else s2
            { s3 with lastInterp := true })
         else { s1 with lastInterp := false,
                        gateViolation := s1.gateViolation || !t.items.isEmpty || t.interpFail }).core
@@ -150,11 +161,14 @@ theorem tickPre_timers (s : State) (t : TickIn) (h : ∀ it ∈ t.items, noEv it
       simp only [] at hh
       obtain ⟨b1, b2, b3⟩ := hh
       split
-      · exact ⟨b1.trans a1, b2.trans a2, b3.trans a3⟩
+      · have f := setError_frame cfg (t.items.foldl interpItem s1).core
+        exact ⟨(f.2.2.2.2.2.2.1.trans b1).trans a1, (f.2.2.2.2.2.2.2.1.trans b2).trans a2,
+          (f.2.2.2.2.2.2.2.2.trans b3).trans a3⟩
       · exact ⟨b1.trans a1, b2.trans a2, b3.trans a3⟩
     · exact ⟨a1, a2, a3⟩
   split
-  · exact key _ ⟨rfl, rfl, rfl⟩
+  · have f := setError_frame cfg s.core
+    exact key _ ⟨f.2.2.2.2.2.2.1, f.2.2.2.2.2.2.2.1, f.2.2.2.2.2.2.2.2⟩
   · exact key _ ⟨rfl, rfl, rfl⟩
 
 /-! ## Command phase and write phase: clocks are only ever reset, never advanced -/
@@ -180,10 +194,16 @@ theorem post_step (cfg : Cfg) (pm : Perm) (hk : pm.clk = false) (hv : pm.ev = fa
     refine ⟨?_, ?_, ?_, ?_, ?_⟩ <;> simp only [Act.apply, Core.writeImage] <;> split <;> assumption
   case ev e => simp [Act.enabled, hv] at hen
   case clock inc => simp [Act.enabled, hk] at hen
+  case error =>
+    have f := setError_frame cfg a.core
+    exact ⟨by simp only [Act.apply]; rw [f.1]; exact h1, by simp only [Act.apply]; rw [f.2.1]; exact h2,
+      by simp only [Act.apply]; rw [f.2.2.2.2.2.2.1]; exact h3,
+      by simp only [Act.apply]; rw [f.2.2.2.2.2.2.2.1]; exact h4,
+      by simp only [Act.apply]; rw [f.2.2.2.2.2.2.2.2]; exact h5⟩
   all_goals exact ⟨h1, h2, h3, h4, h5⟩
 
 theorem post_of_tick (cfg : Cfg) (s : State) (t : TickIn) :
-    Post (abs (tickClock cfg t.inc (tickPre s t))) (abs (tick cfg s t)) :=
+    Post (abs (tickClock cfg t.inc (tickPre cfg s t))) (abs (tick cfg s t)) :=
   (tickPost_ref (cfg := cfg) (pm := ⟨true, false, false⟩) _ (Or.inl rfl)).inv
     (fun a act => post_step cfg _ rfl rfl _ a act) ⟨Or.inl rfl, Or.inl rfl, Or.inl rfl, rfl, rfl⟩
 
@@ -192,9 +212,9 @@ theorem post_of_tick (cfg : Cfg) (s : State) (t : TickIn) :
 /-- In every tick Process Time is either reset to zero (a run starts) or it grows by the increment if the
     clock update saw System State Running during a run, and by nothing otherwise. -/
 theorem process_time_tick (cfg : Cfg) (s : State) (t : TickIn) :
-    (tick cfg s t).core.pt = s.core.pt + advance (tickPre s t).core t.inc ∨ (tick cfg s t).core.pt = 0 := by
+    (tick cfg s t).core.pt = s.core.pt + advance (tickPre cfg s t).core t.inc ∨ (tick cfg s t).core.pt = 0 := by
   have hp := (post_of_tick cfg s t).pt
-  have hk := (tickPre_keeps s t).1
+  have hk := (tickPre_keeps cfg s t).1
   simp only [abs_core, tickClock, clock_pt] at hp
   rcases hp with h | h
   · left; rw [h, hk]
@@ -205,9 +225,9 @@ theorem process_time_tick (cfg : Cfg) (s : State) (t : TickIn) :
     update, a run was active, and the change is exactly the increment. -/
 theorem process_time_only_while_running (cfg : Cfg) (s : State) (t : TickIn)
     (hne : (tick cfg s t).core.pt ≠ s.core.pt) (hnz : (tick cfg s t).core.pt ≠ 0) :
-    s.core.sys = .running ∧ (tickPre s t).core.sys = .running ∧ s.core.started = true ∧
+    s.core.sys = .running ∧ (tickPre cfg s t).core.sys = .running ∧ s.core.started = true ∧
       (tick cfg s t).core.pt = s.core.pt + t.inc := by
-  have hk := tickPre_keeps s t
+  have hk := tickPre_keeps cfg s t
   simp only [] at hk
   rcases process_time_tick cfg s t with h | h
   · unfold advance at h
@@ -222,11 +242,11 @@ theorem process_time_only_while_running (cfg : Cfg) (s : State) (t : TickIn)
 
 theorem run_time_tick (cfg : Cfg) (s : State) (t : TickIn) :
     (tick cfg s t).core.rt = s.core.rt +
-        (if (tickPre s t).core.started = true ∧ (tickPre s t).core.sys ≠ .stopped ∧
-            (tickPre s t).core.sys ≠ .restarting then t.inc else 0) ∨
+        (if (tickPre cfg s t).core.started = true ∧ (tickPre cfg s t).core.sys ≠ .stopped ∧
+            (tickPre cfg s t).core.sys ≠ .restarting then t.inc else 0) ∨
       (tick cfg s t).core.rt = 0 := by
   have hp := (post_of_tick cfg s t).rt
-  have hk := (tickPre_keeps s t).2.1
+  have hk := (tickPre_keeps cfg s t).2.1
   simp only [abs_core, tickClock, clock_rt] at hp
   rcases hp with h | h
   · left; rw [h, hk]
@@ -236,7 +256,7 @@ theorem run_time_tick (cfg : Cfg) (s : State) (t : TickIn) :
 theorem run_time_only_while_active (cfg : Cfg) (s : State) (t : TickIn)
     (hne : (tick cfg s t).core.rt ≠ s.core.rt) (hnz : (tick cfg s t).core.rt ≠ 0) :
     s.core.started = true ∧ (tick cfg s t).core.rt = s.core.rt + t.inc := by
-  have hk := tickPre_keeps s t
+  have hk := tickPre_keeps cfg s t
   simp only [] at hk
   rcases run_time_tick cfg s t with h | h
   · split at h
@@ -276,16 +296,16 @@ theorem find_map_val (l : List (Nat × Int)) (k : Nat) (d : Int) :
 theorem block_time_only_while_running (cfg : Cfg) (hc : cfg.clocks = true) (s : State) (t : TickIn)
     (hev : ∀ it ∈ t.items, noEv it = true)
     (hne : (tick cfg s t).core.blockObs ≠ s.core.blockObs) (hnz : (tick cfg s t).core.blockObs ≠ 0) :
-    s.core.sys = .running ∧ (tickPre s t).core.sys = .running ∧ s.core.started = true ∧
+    s.core.sys = .running ∧ (tickPre cfg s t).core.sys = .running ∧ s.core.started = true ∧
       (tick cfg s t).core.blockObs = s.core.blockObs + t.inc := by
-  have hk := tickPre_keeps s t
-  have ht := tickPre_timers s t hev
+  have hk := tickPre_keeps cfg s t
+  have ht := tickPre_timers cfg s t hev
   simp only [] at hk ht
   have hp := (post_of_tick cfg s t).blocks
   simp only [abs_core, tickClock, (clock_timers cfg hc _ _).1] at hp
   rcases hp with h | h
   · have hobs : (tick cfg s t).core.blockObs =
-        if s.core.blocks = [] then 0 else s.core.blockObs + advance (tickPre s t).core t.inc := by
+        if s.core.blocks = [] then 0 else s.core.blockObs + advance (tickPre cfg s t).core t.inc := by
       unfold Core.blockObs
       rw [h, ht.1, blockObs_map]
     by_cases he : s.core.blocks = []
@@ -306,16 +326,16 @@ theorem block_time_only_while_running (cfg : Cfg) (hc : cfg.clocks = true) (s : 
 theorem scope_time_only_while_running (cfg : Cfg) (hc : cfg.clocks = true) (s : State) (t : TickIn)
     (hev : ∀ it ∈ t.items, noEv it = true)
     (hne : (tick cfg s t).core.scopeObs ≠ s.core.scopeObs) :
-    s.core.sys = .running ∧ (tickPre s t).core.sys = .running ∧ s.core.started = true ∧
+    s.core.sys = .running ∧ (tickPre cfg s t).core.sys = .running ∧ s.core.started = true ∧
       (tick cfg s t).core.scopeObs = s.core.scopeObs + t.inc := by
-  have hk := tickPre_keeps s t
-  have ht := tickPre_timers s t hev
+  have hk := tickPre_keeps cfg s t
+  have ht := tickPre_timers cfg s t hev
   simp only [] at hk ht
   have hpT := (post_of_tick cfg s t).scopeT
   have hpS := (post_of_tick cfg s t).scopeS
   simp only [abs_core, tickClock, (clock_timers cfg hc _ _).2.1, (clock_timers cfg hc _ _).2.2] at hpT hpS
   have hobs : (tick cfg s t).core.scopeObs = s.core.scopeObs ∨
-      (tick cfg s t).core.scopeObs = s.core.scopeObs + advance (tickPre s t).core t.inc := by
+      (tick cfg s t).core.scopeObs = s.core.scopeObs + advance (tickPre cfg s t).core t.inc := by
     unfold Core.scopeObs
     rw [hpT, hpS, ht.2.1, ht.2.2]
     cases hl : s.core.scopeS.getLast? with
@@ -356,6 +376,10 @@ theorem zeroRel_step (cfg : Cfg) (hc : cfg.clocks = true) (pm : Perm) (hk : pm.c
   case ev e =>
     cases e <;> simp only [ZeroRel, Act.apply, Core.event] at h ⊢ <;> first | exact h | (split <;> exact h)
   case clock inc => simp [Act.enabled, hk] at hen
+  case error =>
+    have f := setError_frame cfg a.core
+    simp only [ZeroRel, Act.apply] at h ⊢
+    rw [f.1, f.2.1, f.2.2.1]; exact h
   all_goals exact h
 
 /-- **Process Time and Run Time are zero when a run starts**: whenever an operation leaves the engine with
@@ -365,9 +389,9 @@ theorem zero_at_run_start (cfg : Cfg) (hc : cfg.clocks = true) (s : State) (op :
     (step cfg s op).1.core.pt = 0 ∧ (step cfg s op).1.core.rt = 0 := by
   cases op with
   | tick t =>
-    have hk := tickPre_keeps s t
+    have hk := tickPre_keeps cfg s t
     simp only [] at hk
-    have h0 : ZeroRel s.core.runId (abs (tickClock cfg t.inc (tickPre s t))) := by
+    have h0 : ZeroRel s.core.runId (abs (tickClock cfg t.inc (tickPre cfg s t))) := by
       left; simp only [abs_core, tickClock, (clock_other cfg _ _).1]; exact hk.2.2.1
     have h1 := (tickPost_ref (cfg := cfg) (pm := ⟨true, false, true⟩) _ (Or.inl rfl)).inv
       (fun a act => zeroRel_step cfg hc _ rfl _ a act) h0
@@ -381,7 +405,7 @@ theorem zero_at_run_start (cfg : Cfg) (hc : cfg.clocks = true) (s : State) (op :
   | userUnknown => exact absurd rfl hne
   | userBlank => exact absurd rfl hne
   | setOut i v => exact absurd rfl hne
-  | errApi => exact absurd rfl hne
+  | errApi => exact absurd (setError_frame cfg s.core).2.2.1 hne
 
 /-- relative to a run `r` with clock values `p`, `q`: while the run id is `r` the clocks are at least
     `p`, `q`; ids allocated later are larger than `r` -/
@@ -409,6 +433,10 @@ theorem monoRel_step (cfg : Cfg) (pm : Perm) (hk : pm.clk = false) (r : Nat) (p 
     cases e <;> refine ⟨?_, ?_⟩ <;> simp only [Act.apply, Core.event] <;>
       first | assumption | (split <;> assumption)
   case clock inc => simp [Act.enabled, hk] at hen
+  case error =>
+    have f := setError_frame cfg a.core
+    simp only [MonoRel, Act.apply]
+    rw [f.1, f.2.1, f.2.2.1, f.2.2.2.1]; exact ⟨h1, h2⟩
   all_goals exact ⟨h1, h2⟩
 
 /-- **Process Time and Run Time never decrease during the run**: for every reachable state, every
@@ -423,10 +451,10 @@ theorem never_decrease (cfg : Cfg) (outs : List Int) (ops : List Op) (op : Op) (
   have hfresh : r < s.core.nextRunId := (C06.state_agrees_weak cfg outs ops).fresh r hr
   cases op with
   | tick t =>
-    have hk := tickPre_keeps s t
+    have hk := tickPre_keeps cfg s t
     simp only [] at hk
     have hi : 0 ≤ t.inc := hinc t rfl
-    have h0 : MonoRel r s.core.pt s.core.rt (abs (tickClock cfg t.inc (tickPre s t))) := by
+    have h0 : MonoRel r s.core.pt s.core.rt (abs (tickClock cfg t.inc (tickPre cfg s t))) := by
       refine ⟨?_, fun _ => ?_⟩
       · simp only [abs_core, tickClock, (clock_other cfg _ _).2.1, hk.2.2.2.1]; exact hfresh
       · simp only [abs_core, tickClock, clock_pt, clock_rt, hk.1, hk.2.1]
@@ -442,7 +470,9 @@ theorem never_decrease (cfg : Cfg) (outs : List Int) (ops : List Op) (op : Op) (
   | userUnknown => exact ⟨Int.le_refl _, Int.le_refl _⟩
   | userBlank => exact ⟨Int.le_refl _, Int.le_refl _⟩
   | setOut i v => exact ⟨Int.le_refl _, Int.le_refl _⟩
-  | errApi => exact ⟨Int.le_refl _, Int.le_refl _⟩
+  | errApi =>
+    have f := setError_frame cfg s.core
+    exact ⟨Int.le_of_eq f.1.symm, Int.le_of_eq f.2.1.symm⟩
 
 /-! ## The code as it is: witnesses; non-vacuity -/
 
@@ -457,7 +487,7 @@ theorem asIs_clocks_advance_during_hold :
     let cfg := asIs safes3
     let s := run cfg (init cfg [5, 7, 9]) [.user .start, tk, tkRoot, tk, .user .hold, tk]
     let s' := tick cfg s { adv := 8, inc := 8 }
-    s.core.sys = .holding ∧ (tickPre s { adv := 8, inc := 8 }).core.sys = .holding ∧
+    s.core.sys = .holding ∧ (tickPre cfg s { adv := 8, inc := 8 }).core.sys = .holding ∧
       s'.core.blockObs = s.core.blockObs + 8 ∧ s'.core.scopeObs = s.core.scopeObs + 8 ∧
       s'.core.pt = s.core.pt := by
   decide +kernel
